@@ -292,3 +292,71 @@ def front_mode(prog, sl, with_spec=True):
             return out
         return run, [pb]
     return setup
+
+
+def front_item_cells(front, sl):
+    raise NotImplementedError
+
+
+def front_item_mode(prog, sl, with_spec=True):
+    """module / impl-block bodies and single fn items as symbolic token lists, parsed by entrait's own item parsers"""
+    from . import front
+    what = sl['what']          # 'mod' | 'impl' | 'fn'
+    n = sl.get('max_tokens', 5)
+    set_fixed(prog, sl.get('fixed', ()))
+    G = inputs.Gen(prog, inputs.Bounds())
+
+    def make_cells():
+        layout = sl.get('layout')
+        if not layout:
+            return front.sym_item_tokens('t', n)
+        cells = []
+        fixed_fn = [('I', 'pub'), ('I', 'fn'), ('I', 'g0'), ('G', '(', list(front.PAREN_GROUPS['(deps: &impl B0)'])), ('G', '{', [])]
+        for part in layout:
+            if part == 'FN':
+                cells += list(fixed_fn)
+            elif part == 'STRUCT':
+                cells += [('I', 'struct'), ('I', 'Y'), ('P', ';')]
+            else:
+                cells += front.sym_item_segments('it.' + part, 'reduced' if part.startswith('r') else 'full')
+        return cells
+
+    def setup(ex):
+        cells = make_cells()
+        ex.notes['input'] = dict(mode='front-item', what=what, variant='entrait', n=n, layout=sl.get('layout'))
+        if what == 'mod':
+            top = [('I', 'mod'), ('I', 'm'), ('G', '{', cells)]
+        elif what == 'impl':
+            top = [('I', 'impl'), ('I', 'FooImpl'), ('I', 'for'), ('I', 'MyImpl'), ('G', '{', cells)]
+        else:
+            top = cells
+        pb = front.PBuf(top, 0, 'item')
+
+        def run(ex, pb):
+            body = prog.ix.methods[('Input', 'Parse', 'parse')]
+            r = ex.force(ex.run_body(prog.bodies[body], [new_cell(pb)]))
+            if r.variant == 'Ok' and front.tok_at(ex, pb) != front.END:
+                r = Err(Obj('Error', None, [front.span_at(pb), 'unexpected token'], ['span', 'message']))
+            out = r
+            parsed = r
+            if r.variant == 'Ok':
+                inp = r.fields[0]
+                A = prog.ast
+                if inp.variant in ('Fn', 'Mod'):
+                    attr = G.fn_attr('attr', (), 'Foo')
+                    attr.fields[attr.names.index('trait_visibility')] = A.vis_inherited()
+                    a = new_cell(attr)
+                    out = ex.run_body(prog.bodies['entrait_for_single_fn' if inp.variant == 'Fn' else 'entrait_for_mod'], [a, inp.fields[0]])
+                elif inp.variant == 'Impl':
+                    attr = ssetup.local_node(prog, 'EntraitSimpleImplAttr', impl_kind=Obj('ImplKind', 'Static', []),
+                                             opts=G.opts('o', ()), crate_idents=G.crate_idents())
+                    out = ex.run_body(prog.bodies['output_tokens_for_impl'], [attr, inp.fields[0]])
+                else:
+                    attr = ssetup.local_node(prog, 'EntraitTraitAttr', impl_trait=NONE(), opts=G.opts('o', ()), delegation_kind=NONE(), crate_idents=G.crate_idents())
+                    out = ex.run_body(prog.bodies['output_tokens'], [attr, inp.fields[0]])
+            if with_spec:
+                from . import spec
+                ex.notes['obligations'] = spec.spec_front_item(ex, what, cells, parsed, out)
+            return out
+        return run, [pb]
+    return setup
